@@ -138,6 +138,15 @@ func gen(c *lib.Ctx) {
 		genHistWrap(c, "c03histwrap-ip", false)
 		genHistWrap(c, "c03histwrap-scion", true)
 		genHdr(c, "c03hdr")
+		genUnsync(c, "c03unsync-ip", false)
+		genUnsync(c, "c03unsync-scion", true)
+		genSlowPath(c, "c03slow-ip", false)
+		genSlowPath(c, "c03slow-scion", true)
+	case "unsync": // development
+		genUnsync(c, "c03unsync-ip", false)
+		genUnsync(c, "c03unsync-scion", true)
+		genSlowPath(c, "c03slow-ip", false)
+		genSlowPath(c, "c03slow-scion", true)
 	case "tail": // development: the streams of gen_tail.go only
 		genHistPure(c)
 		genHist(c, "c03hist-ip", false)
@@ -170,6 +179,13 @@ func gen(c *lib.Ctx) {
 		genHist(c, "c05hist-scion", true)
 		genHistWrap(c, "c05histwrap-ip", false)
 		genHistWrap(c, "c05histwrap-scion", true)
+		genUnsync(c, "c05unsync-ip", false)
+		genUnsync(c, "c05unsync-scion", true)
+		genRekey(c, "c05rekey-ip", false)
+		genRekey(c, "c05rekey-scion", true)
+	case "rekey": // development
+		genRekey(c, "c05rekey-ip", false)
+		genRekey(c, "c05rekey-scion", true)
 	case "port": // development
 		genLatePort(c, "c03lateport-ip", false)
 		genLatePort(c, "c03lateport-scion", true)
